@@ -440,44 +440,113 @@ Proof.
       * intros H x Hx. apply H. right. exact Hx.
 Qed.
 
-Theorem resolve_outputs_partial : forall net outs, WFnet net -> guard_outputs_all_or_none (POutputs net outs) = true ->
-  outs <> [] -> (resolve_outputs net outs = Ok <-> forall o, In o outs -> Path3 net o).
+Theorem resolve_outputs_ok_iff : forall net outs, WFnet net ->
+  (resolve_outputs net outs = Ok <-> forall o, In o outs -> Path3 net o).
 Proof.
-  intros net outs W G NE. cbn in G. unfold resolve_outputs. fold (path3b net).
-  apply orb_true_iff in G. destruct G as [G | G].
-  - assert (A : forall o, In o outs -> path3b net o = true) by (apply forallb_forall, G).
-    split.
-    + intros _ o Ho. apply (path3b_iff net o W), A, Ho.
-    + intros _. destruct (filter (path3b net) outs) eqn:F; [|reflexivity].
-      exfalso. destruct outs as [|o r]; [apply NE; reflexivity|].
-      pose proof (proj1 (filter_nil_iff _ _ _) F o (or_introl eq_refl)) as X. rewrite (A o (or_introl eq_refl)) in X. discriminate.
-  - assert (A : forall o, In o outs -> path3b net o = false).
-    { intros o Ho. apply negb_true_iff. exact (proj1 (forallb_forall _ _) G o Ho). }
-    apply filter_nil_iff in A. rewrite A. split; [discriminate|].
-    intros H. exfalso. destruct outs as [|o r]; [apply NE; reflexivity|].
-    pose proof (proj1 (filter_nil_iff _ _ _) A o (or_introl eq_refl)) as X.
-    pose proof (proj2 (path3b_iff net o W) (H o (or_introl eq_refl))) as Y. congruence.
+  intros net outs W. unfold resolve_outputs. fold (path3b net).
+  destruct (forallb (path3b net) outs) eqn:F.
+  - split; [|reflexivity]. intros _ o Ho. apply (path3b_iff net o W). exact (proj1 (forallb_forall _ _) F o Ho).
+  - split; [discriminate|]. intros H. exfalso.
+    assert (X : forallb (path3b net) outs = true).
+    { apply forallb_forall. intros o Ho. apply (path3b_iff net o W), H, Ho. }
+    congruence.
+Qed.
+Theorem missing_output_raises : forall net outs o, WFnet net -> In o outs -> ~ Path3 net o ->
+  resolve_outputs net outs = Err EPyRates.
+Proof.
+  intros net outs o W Ho N. unfold resolve_outputs. fold (path3b net).
+  destruct (forallb (path3b net) outs) eqn:F; [|reflexivity].
+  exfalso. apply N, (path3b_iff net o W). exact (proj1 (forallb_forall _ _) F o Ho).
+Qed.
+(* what fix D48 repaired: one of two requested outputs misspelt, dropped silently *)
+Definition F1_net : network := [("p1", [("oa", ["r"])]); ("p2", [("oa", ["r"])])].
+Theorem outputs_before_D48_silent : exists net outs o, WFnet net /\ In o outs /\ ~ Path3 net o /\
+  resolve_outputs_before_D48 net outs = Ok.
+Proof.
+  exists F1_net, [["p1x"; "oa"; "r"]; ["p2"; "oa"; "r"]], ["p1x"; "oa"; "r"].
+  assert (W : WFnet F1_net) by (apply wf_netb_WF; vm_compute; reflexivity).
+  split; [exact W|]. split; [left; reflexivity|]. split; [|vm_compute; reflexivity].
+  intros H. apply (path3b_iff _ _ W) in H. vm_compute in H. discriminate.
 Qed.
 
-Theorem node_value_partial : forall net p, WFnet net -> guard_node_value_node_exists (PNodeValue net p) = true ->
-  (node_value net p = Ok <-> Path3 net p).
+Lemma first_failure_ok : forall rs, first_failure rs = Ok <-> forall r, In r rs -> r = Ok.
 Proof.
-  intros net p W G. rewrite <- (path3b_iff net p W). unfold path3b.
-  destruct p as [|n [|o [|v [|x r]]]].
-  - cbn. split; discriminate.
-  - cbn [node_value]. replace (Nat.eqb (List.length [n]) 3) with false by reflexivity.
-    rewrite andb_false_r. split; discriminate.
-  - cbn [node_value]. replace (Nat.eqb (List.length [n; o]) 3) with false by reflexivity.
-    rewrite andb_false_r. split; discriminate.
-  - cbn in *. destruct (lookup n net) as [ops|]; [|discriminate].
-    destruct (lookup o ops) as [vars|]; cbn; [|split; discriminate].
-    destruct (mem v vars); cbn; split; intros H; try reflexivity; discriminate.
-  - cbn [node_value]. replace (Nat.eqb (List.length (n :: o :: v :: x :: r)) 3) with false by reflexivity.
-    rewrite andb_false_r. split; discriminate.
+  induction rs as [|r rest IH]; cbn.
+  - split; [intros _ ? [] | reflexivity].
+  - destruct r; cbn.
+    + rewrite IH. split; [intros H r [<- | Hr]; [reflexivity | apply H, Hr] | intros H r Hr; apply H; right; exact Hr].
+    + split; [discriminate | intros H; apply H; left; reflexivity].
+    + split; [discriminate | intros H; apply H; left; reflexivity].
 Qed.
-Theorem node_value_missing_operator : forall (net : network) n o v (ops : list opd), lookup n net = Some ops -> lookup o ops = None ->
-  node_value net [n; o; v] = Err EPyRates.
-Proof. intros net n o v ops H1 H2. unfold node_value. rewrite H1, H2. reflexivity. Qed.
+Lemma first_failure_not_warn : forall rs, (forall r, In r rs -> r <> Warn) -> first_failure rs <> Warn.
+Proof.
+  induction rs as [|r rest IH]; cbn; intros H; [discriminate|].
+  destruct r; cbn.
+  - apply IH. intros r Hr. apply H. right. exact Hr.
+  - exfalso. apply (H Warn); [left; reflexivity | reflexivity].
+  - discriminate.
+Qed.
+Lemma node_value_on_not_warn : forall o v ops, node_value_on o v ops <> Warn.
+Proof. intros o v ops. unfold node_value_on. destruct (lookup o ops); [destruct (mem v l)|]; discriminate. Qed.
+Lemma node_value_on_ok : forall o v (ops : list opd), node_value_on o v ops = Ok ->
+  exists vars, In (o, vars) ops /\ In v vars.
+Proof.
+  intros o v ops H. unfold node_value_on in H. destruct (lookup o ops) as [vars|] eqn:L; [|discriminate].
+  destruct (mem v vars) eqn:M; [|discriminate]. exists vars. split; [apply lookup_some_In, L | apply mem_In, M].
+Qed.
+
+Theorem node_value_ok_target : forall net p, node_value net p = Ok -> NodeValueTarget net p.
+Proof.
+  intros net p H. destruct p as [|n [|o [|v [|x r]]]]; try discriminate.
+  unfold node_value in H. unfold NodeValueTarget. unfold node_targets in H.
+  destruct (String.eqb n "all").
+  - destruct net as [|[m ops] net']; [discriminate|]. cbn [map snd] in H.
+    apply first_failure_ok with (r := node_value_on o v ops) in H; [|left; reflexivity].
+    destruct (node_value_on_ok o v ops H) as [vars [Ho Hv]].
+    exists m. split; [|reflexivity]. exists ops, vars. split; [left; reflexivity | tauto].
+  - destruct (lookup n net) as [ops|] eqn:L; [|discriminate]. cbn in H.
+    destruct (node_value_on o v ops) eqn:E; try discriminate.
+    destruct (node_value_on_ok o v ops E) as [vars [Ho Hv]].
+    split; [|reflexivity]. exists ops, vars. split; [apply lookup_some_In, L | tauto].
+Qed.
+Lemma node_value_warn_suffices : forall net p, node_value net p = Warn -> warn_suffices (PNodeValue net p) = true.
+Proof.
+  intros net p H. destruct p as [|n [|o [|v [|x r]]]]; try discriminate.
+  cbn. unfold node_value in H. destruct (node_targets net n) as [|t ts] eqn:T; [reflexivity|].
+  exfalso. revert H. apply first_failure_not_warn. intros r Hr. apply in_map_iff in Hr.
+  destruct Hr as [ops [<- _]]. apply node_value_on_not_warn.
+Qed.
+(* an operator that does not exist on the addressed node => PyRatesException *)
+Theorem node_value_missing_operator : forall (net : network) n o v (ops : list opd), String.eqb n "all" = false ->
+  lookup n net = Some ops -> lookup o ops = None -> node_value net [n; o; v] = Err EPyRates.
+Proof.
+  intros net n o v ops NA H1 H2. unfold node_value, node_targets. rewrite NA, H1. cbn.
+  unfold node_value_on. rewrite H2. reflexivity.
+Qed.
+(* a broadcast whose operator no node has => PyRatesException (first node) *)
+Theorem node_value_broadcast_missing_operator : forall (net : network) m ops rest o v,
+  net = (m, ops) :: rest -> lookup o ops = None -> node_value net ["all"; o; v] = Err EPyRates.
+Proof.
+  intros net m ops rest o v -> H. unfold node_value, node_targets. cbn.
+  unfold node_value_on at 1. rewrite H. reflexivity.
+Qed.
+(* a node that does not exist => warning (fix D49); before the fix: silence *)
+Theorem node_value_unknown_node_warns : forall (net : network) n o v, String.eqb n "all" = false ->
+  lookup n net = None -> node_value net [n; o; v] = Warn /\ node_value_before_D49 net [n; o; v] = Ok.
+Proof.
+  intros net n o v NA H. unfold node_value, node_value_before_D49, node_targets. rewrite NA, H. split; reflexivity.
+Qed.
+
+Lemma node_value_targetb_iff : forall net p, WFnet net -> (node_value_targetb net p = true <-> NodeValueTarget net p).
+Proof.
+  intros net p W. destruct p as [|n [|o [|v [|x r]]]]; cbn; try (split; [discriminate | intros []]).
+  destruct (String.eqb n "all").
+  - rewrite existsb_exists. split.
+    + intros [[m ops] [Hin H]]. exists m. apply (path3b_iff net _ W). exact H.
+    + intros [m H]. pose proof H as [[ops [vars [Hin _]]] _].
+      exists (m, ops). split; [exact Hin|]. apply (path3b_iff net _ W). exact H.
+  - apply (path3b_iff net [n; o; v] W).
+Qed.
 
 (* =====================================================================================================
    Part 4 — operator graph: elimination order, cycles
@@ -604,37 +673,48 @@ Qed.
 Lemma wfprobeb_WF : forall p, wfprobeb p = true -> WFprobe p.
 Proof. destruct p; cbn; intros H; try exact I; apply wf_netb_WF, H. Qed.
 
-Lemma guard_parts : forall p, guard p = true ->
-  guard_path_not_attr p = true /\ guard_outputs_all_or_none p = true /\ guard_node_value_node_exists p = true.
-Proof. intros p H. unfold guard in H. rewrite !andb_true_iff in H. tauto. Qed.
-
-Lemma resolve_outputs_nil : forall net, resolve_outputs net [] = Err EOther.
-Proof. reflexivity. Qed.
+Lemma mixed_ok_supported : forall b s v fp e, mixed_outcome b s v fp e = Ok -> Supported (mixed_config b s v e).
+Proof.
+  intros b s v fp e H. unfold mixed_outcome in H.
+  destruct (validate_backend_args (mixed_config b s v e)); cbn in H; try discriminate.
+  destruct v; [discriminate|].
+  destruct (mixed_fortran_runs b s fp e) eqn:M; [|apply outcome_ok_supported, H].
+  unfold mixed_fortran_runs in M. rewrite !andb_true_iff in M. destruct M as [[[Mb _] Ms] Me].
+  apply backend_eqb_eq in Mb. apply entry_eqb_eq in Me. subst b e.
+  apply supportedb_iff. destruct s; try discriminate; reflexivity.
+Qed.
+Lemma mixed_not_warn : forall b s v fp e, mixed_outcome b s v fp e <> Warn.
+Proof.
+  intros b s v fp e H. unfold mixed_outcome in H.
+  unfold validate_backend_args in H. destruct (vec _ && _); cbn in H; [discriminate|].
+  destruct v; [discriminate|]. destruct (mixed_fortran_runs b s fp e); [discriminate|]. exact (outcome_not_warn _ H).
+Qed.
 
 (* C20: whatever returns quietly was a well-formed / supported request *)
 Theorem impl_ok_wellformed : forall p, WFprobe p -> guard p = true -> impl p = Ok -> WellFormed p.
 Proof.
-  intros p W G H. apply guard_parts in G. destruct G as [G1 [G2 G3]].
+  intros p W G H. unfold guard in G.
   destruct p; cbn [impl WellFormed WFprobe] in *.
   - apply outcome_ok_supported, H.
+  - apply (mixed_ok_supported b s v first_plain e), H.
   - apply check_vname_ok_iff, H.
   - apply scan_vars_ok_iff, H.
   - apply check_equation_ok_iff, H.
   - apply node_apply_ok_iff, H.
-  - apply (verify_path_partial attrs net p W G1), H.
+  - apply (verify_path_partial attrs net p W G), H.
   - apply (edge_endpoint_ok_iff net p W), H.
   - apply (add_input_ok_iff net p W), H.
   - apply (add_input_ok_iff net p W), H.
-  - destruct outs as [|o r]; [discriminate|].
-    apply (resolve_outputs_partial net (o :: r) W G2); [discriminate | exact H].
-  - apply (node_value_partial net p W G3), H.
+  - apply (resolve_outputs_ok_iff net outs W), H.
+  - apply node_value_ok_target, H.
   - intros [S C]. unfold check_op_graph in H. rewrite (cycle_rejected _ _ S C) in H. discriminate.
 Qed.
 
 Lemma impl_warn : forall p, impl p = Warn -> warn_suffices p = true.
 Proof.
-  intros p H. destruct p; cbn in *; try reflexivity.
+  intros p H. destruct p; cbn [impl] in *; try reflexivity.
   - exfalso. exact (outcome_not_warn c H).
+  - exfalso. exact (mixed_not_warn _ _ _ _ _ H).
   - destruct (check_vname_cases v) as [X | X]; congruence.
   - destruct (scan_vars_err_class vars false) as [X | X]; congruence.
   - unfold check_equation in H. destruct (forallb _ _); discriminate.
@@ -644,11 +724,8 @@ Proof.
            | context [match ?x with _ => _ end] => destruct x; try discriminate
            end.
   - unfold edge_endpoint in H. destruct (_ && _); discriminate.
-  - unfold resolve_outputs in H. destruct (filter _ _); discriminate.
-  - unfold node_value in H.
-    repeat match type of H with
-           | context [match ?x with _ => _ end] => destruct x; try discriminate
-           end.
+  - unfold resolve_outputs in H. destruct (forallb _ _); discriminate.
+  - apply node_value_warn_suffices, H.
   - unfold check_op_graph in H. destruct (toposort _ _); discriminate.
 Qed.
 
@@ -671,6 +748,7 @@ Theorem wellformedb_iff : forall p, WFprobe p -> (wellformedb p = true <-> WellF
 Proof.
   intros p W. destruct p; cbn [wellformedb WellFormed WFprobe] in *.
   - apply supportedb_iff.
+  - apply supportedb_iff.
   - rewrite is_ok_iff. apply check_vname_ok_iff.
   - rewrite andb_true_iff, Nat.leb_le.
     rewrite (forallb_iff _ _ (fun d : vardecl => ~ Reserved (fst d))).
@@ -687,7 +765,7 @@ Proof.
   - apply path3b_iff, W.
   - apply path3b_iff, W.
   - apply forallb_iff. intros o _. apply path3b_iff, W.
-  - apply path3b_iff, W.
+  - apply node_value_targetb_iff, W.
   - destruct (toposort (map oname ops) (op_edges ops)) eqn:T.
     + split; [|reflexivity]. intros _ [S C]. rewrite (cycle_rejected _ _ S C) in T. discriminate.
     + split; [discriminate|]. intros H. exfalso. apply H. apply toposort_none_iff, T.
@@ -702,22 +780,15 @@ Proof.
   - tauto.
 Qed.
 
-(* ---- the full-strength statement and its three refutations ---- *)
+(* ---- the full-strength statement and its refutation (F1 and F2 were repaired by D48 / D49) ---- *)
 Definition C20_full_statement : Prop := forall p, WFprobe p -> impl p = Ok -> WellFormed p.
 
-Definition F1_net : network := [("p1", [("oa", ["r"])]); ("p2", [("oa", ["r"])])].
-Definition F1_probe : probe := POutputs F1_net [["p1x"; "oa"; "r"]; ["p2"; "oa"; "r"]].
-Definition F2_probe : probe := PNodeValue F1_net ["p1x"; "oa"; "r"].
 Definition F3_probe : probe := PVerifyPath ["label"] F3_net F3_path.
 
 Lemma refute_by : forall p, wfprobeb p = true -> impl p = Ok -> wellformedb p = false -> ~ C20_full_statement.
 Proof.
-  intros p W I NW H. pose proof (wfprobeb_WF p W) as W'.
-  apply (wellformedb_iff p W') in H; [congruence | exact W' | exact I].
+  intros p W Hi NW H. pose proof (wfprobeb_WF p W) as W'.
+  apply (wellformedb_iff p W') in H; [congruence | exact W' | exact Hi].
 Qed.
-Theorem C20_refuted_outputs : ~ C20_full_statement /\ guard_outputs_all_or_none F1_probe = false.
-Proof. split; [apply (refute_by F1_probe); vm_compute; reflexivity | vm_compute; reflexivity]. Qed.
-Theorem C20_refuted_node_value : ~ C20_full_statement /\ guard_node_value_node_exists F2_probe = false.
-Proof. split; [apply (refute_by F2_probe); vm_compute; reflexivity | vm_compute; reflexivity]. Qed.
 Theorem C20_refuted_verify_path : ~ C20_full_statement /\ guard_path_not_attr F3_probe = false.
 Proof. split; [apply (refute_by F3_probe); vm_compute; reflexivity | vm_compute; reflexivity]. Qed.
